@@ -171,6 +171,15 @@ func c19Debouncer(p *chk.Prog, r *chk.Report) {
 		return len(as.Lhs) == 2 && lf.ObjOf(e) != nil && lf.ObjOf(e) == lf.ObjOf(as.Lhs[1])
 	}
 	closed := chk.GBool(false, okVar)
+	// the goroutine ends only when the channel was closed: any other return leaves every later submitter blocked for ever
+	okEnd := true
+	endPos := recv.Pos()
+	for _, rt := range g.Returns() {
+		if !g.Dominated(rt, closed) {
+			okEnd, endPos = false, rt.Pos()
+		}
+	}
+	st.Check("debouncer:ends-only-when-channel-closed", endPos, okEnd, "", "the debouncer goroutine can end although the reload channel is still open (the channel is unbuffered: the next submitter blocks for ever, holding the session manager's lock)")
 	store := func(n ast.Node) bool {
 		as, ok := n.(*ast.AssignStmt)
 		return ok && len(as.Lhs) == 1 && lf.ObjOf(as.Lhs[0]) == cfgObj
@@ -412,6 +421,35 @@ func c19Submit(p *chk.Prog, r *chk.Report) {
 			}
 			gen.Check("generateAndReloadConfigFile:"+step, posOf(w, gf), !w.Found && okErr, "", "a reload can report success without "+step+" having run successfully (e.g. skipped because the file looks unchanged: a failed signal or a re-apply request is then never retried)")
 		}
+	}
+	// the reload signal itself: success means the reloader was signalled
+	rc := need(gen, p, frrPkg, "", "reloadConfig")
+	if rc != nil {
+		g := rc.Graph()
+		kill := "syscall.Kill(P, syscall.SIGHUP)"
+		signalled := g.GErrNil(true, kill)
+		okSig, nRet := true, 0
+		for _, rt := range g.Returns() {
+			rs := rt.Node.(*ast.ReturnStmt)
+			if len(rs.Results) != 1 {
+				continue
+			}
+			nRet++
+			res := rs.Results[0]
+			switch {
+			case rc.MatchNew(kill, res) != nil, rc.KnownNonNil(res):
+			case rc.IsNilLit(res):
+				if !g.Dominated(rt, signalled) {
+					okSig = false
+				}
+			default:
+				r0 := res
+				if !g.Dominated(rt, chk.GOr(signalled, g.GExprNil(false, func(e ast.Expr) bool { return rc.SameExpr(e, r0) }))) {
+					okSig = false
+				}
+			}
+		}
+		gen.Check("reloadConfig:success-means-signalled", rc.Pos(), okSig && nRet > 0 && len(g.FindPat(kill)) == 1, "", "reloadConfig can report success without having sent SIGHUP to the reloader (e.g. when its pid file is missing): the debouncer takes the configuration for applied and never retries")
 	}
 	rp := r.Rule("REAPPLY", "B path", "frr.validateReload sends reloadEvent{useOld: true} only behind a status file with two fields whose time stamp differs from the previous one and whose status is `failure`", 1)
 	vf := need(rp, p, frrPkg, "", "validateReload")
